@@ -9,9 +9,11 @@ package main
 // every success return is dominated by a consume whose success is established.
 
 import (
+	"fmt"
 	"go/constant"
 	"go/token"
 	"go/types"
+	"sort"
 	"strings"
 
 	"golang.org/x/tools/go/ssa"
@@ -564,8 +566,146 @@ func progressRule(w *World, r *Report, e *Engine) {
 		if p.consuming[fn] {
 			r.ok("C05.progress", fn, "consume summary", fn.Pos(), "every successful return is dominated by a successful consume")
 		} else {
+			// not an obligation in itself: what has to hold is that loops and recursion make progress (below);
+			// a helper that only looks ahead is fine as long as no loop or cycle relies on it
 			_, why := p.isConsuming(fn, p.consuming)
-			r.bad("C05.progress", fn, "consume summary", fn.Pos(), why)
+			r.add("C05.progress", fn, "consume summary", fn.Pos(), "info", "not consuming ("+why+"): loops and recursion cycles through it are checked without relying on it")
+		}
+	}
+	// recursion: on every cycle of calls among the reader's parsing functions a token is consumed between
+	// entering a function and the call that continues the cycle. A call site has consumed when a consume
+	// dominates it: the cursor store itself, a successful call of a consuming function, or a call of the
+	// advancing accessor after the non-advancing one was seen to return a token.
+	{
+		nextFn, peekFn := w.tokenAccessors()
+		inSet := map[*ssa.Function]bool{}
+		for _, fn := range w.pkgFuncs("reader") {
+			if fn != nextFn && fn != peekFn && fn.Parent() == nil && hasParam(fn, "reader.tokenReader") {
+				inSet[fn] = true
+			}
+		}
+		consumedBefore := func(c *ssa.Call) bool {
+			b := c.Block()
+			fn := b.Parent()
+			for _, d := range fn.Blocks {
+				if d != b && !d.Dominates(b) {
+					continue
+				}
+				for _, in := range d.Instrs {
+					if in == ssa.Instruction(c) {
+						break
+					}
+					if primitiveConsume(in) {
+						return true
+					}
+					cc, ok := in.(*ssa.Call)
+					if !ok || cc.Call.StaticCallee() == nil {
+						continue
+					}
+					callee := cc.Call.StaticCallee()
+					if callee == nextFn {
+						// the advancing accessor, where a token is known to be there
+						if p.e.nonNilFact(cc, b) {
+							return true
+						}
+						// ... also when every caller of this function has looked (a helper of the dispatcher
+						// that is only called for a token the dispatcher peeked)
+						if sites := p.e.callSites(fn); len(sites) > 0 {
+							all := true
+							for _, cs := range sites {
+								peeked := false
+								for _, pd := range cs.Parent().Blocks {
+									if pd != cs.Block() && !pd.Dominates(cs.Block()) {
+										continue
+									}
+									for _, pin := range pd.Instrs {
+										if pc, ok := pin.(*ssa.Call); ok && pc.Call.StaticCallee() == peekFn && p.e.nonNilFact(pc, cs.Block()) {
+											peeked = true
+										}
+									}
+								}
+								all = all && peeked
+							}
+							if all {
+								return true
+							}
+						}
+						for _, pd := range fn.Blocks {
+							if pd != d && !pd.Dominates(d) {
+								continue
+							}
+							for _, pin := range pd.Instrs {
+								if pc, ok := pin.(*ssa.Call); ok && pc.Call.StaticCallee() == peekFn && p.e.nonNilFact(pc, d) {
+									return true
+								}
+							}
+						}
+						continue
+					}
+					if p.consuming[callee] && d != b && p.successAt(cc, b) {
+						return true
+					}
+				}
+			}
+			return false
+		}
+		free := map[*ssa.Function][]*ssa.Function{} // calls made before anything was consumed
+		where := map[[2]*ssa.Function]token.Pos{}
+		nEdges := 0
+		for fn := range inSet {
+			for _, b := range fn.Blocks {
+				for _, in := range b.Instrs {
+					c, ok := in.(*ssa.Call)
+					if !ok || !inSet[c.Call.StaticCallee()] {
+						continue
+					}
+					nEdges++
+					if !consumedBefore(c) {
+						free[fn] = append(free[fn], c.Call.StaticCallee())
+						where[[2]*ssa.Function{fn, c.Call.StaticCallee()}] = c.Pos()
+					}
+				}
+			}
+		}
+		// a cycle among the calls made without consuming
+		state := map[*ssa.Function]int{}
+		var cyc []*ssa.Function
+		var dfs func(f *ssa.Function, path []*ssa.Function) bool
+		dfs = func(f *ssa.Function, path []*ssa.Function) bool {
+			state[f] = 1
+			for _, g := range free[f] {
+				if state[g] == 1 {
+					cyc = append(append([]*ssa.Function{}, path...), f, g)
+					return true
+				}
+				if state[g] == 0 && dfs(g, append(path, f)) {
+					return true
+				}
+			}
+			state[f] = 2
+			return false
+		}
+		var fns []*ssa.Function
+		for fn := range inSet {
+			fns = append(fns, fn)
+		}
+		sort.Slice(fns, func(i, j int) bool { return fns[i].Name() < fns[j].Name() })
+		found := false
+		for _, fn := range fns {
+			if state[fn] == 0 && dfs(fn, nil) {
+				found = true
+				break
+			}
+		}
+		if found {
+			var names []string
+			for _, f := range cyc {
+				names = append(names, f.Name())
+			}
+			last := cyc[len(cyc)-2]
+			r.bad("C05.progress", last, "recursion among the parsing functions", where[[2]*ssa.Function{last, cyc[len(cyc)-1]}], "the calls "+strings.Join(names, " -> ")+" form a cycle on which no token is consumed: the reader can recurse without end on some text")
+		} else {
+			r.ok("C05.progress", nil, "recursion among the parsing functions", token.NoPos, fmt.Sprintf("%d calls among %d parsing functions; the calls made before a token is consumed form no cycle", nEdges, len(inSet)))
 		}
 	}
 	// loops
